@@ -1615,3 +1615,9 @@ _add_family(globals(), _si, 'storeinit', _si.oracle, share=0.01)
 from harness import declorder as _do                    # noqa: E402
 from harness.mixins import add_family as _add_family    # noqa: E402,F811
 _add_family(globals(), _do, 'declorder', _do.oracle, share=0.04)
+
+
+# a schema override (another default, another updater) on a process that is wrapped for parallel execution
+from harness import paroverride as _po                  # noqa: E402
+from harness.mixins import add_family as _add_family    # noqa: E402,F811
+_add_family(globals(), _po, 'paroverride', _po.oracle, share=0.01)
